@@ -74,8 +74,22 @@ def monitor(state, op, o):
                 text, end = m["cands"][i]
                 inp = sc.unhex(prev.get("input"))
                 if end == len(inp) and prev.get("preedit") not in (None, "~"):
+                    # "the already confirmed text": what the engine itself attributed to the part before the current segment
+                    # in the preview it reported just before (preview = that prefix + highlighted candidate's text + the input
+                    # the highlighted candidate leaves uncovered).  The preedit in front of the selection is the same bytes
+                    # whenever the earlier segments were confirmed by the user; it is NOT for an earlier, never confirmed
+                    # segment whose best candidate is partial (GetPreedit shows the uncovered input, GetCommitText drops it) —
+                    # equating the two raised a false alarm on vs_initials, whose delimiters split set_input text into
+                    # several unconfirmed segments.
                     s0 = int(prev["sel"].split(",")[0])
-                    expected = sc.unhex(prev["preedit"])[:s0] + text
+                    prefix = sc.unhex(prev["preedit"])[:s0]
+                    pv = sc.unhex(prev.get("preview"))
+                    if 0 <= m["hi"] < len(m["cands"]):
+                        ht, he = m["cands"][m["hi"]]
+                        tail = ht + inp[he:]
+                        if pv.endswith(tail):
+                            prefix = pv[:len(pv) - len(tail)]
+                    expected = prefix + text
                     state["select_to_end"] = state.get("select_to_end", 0) + 1
                     if delivered:           # auto-committing editor
                         if delivered != expected:
